@@ -1087,7 +1087,10 @@ class LongItmdVariants(dict):
 
             is_new_remainder = False
             # possibly we got another -1 from matching the remainder
+            # -> the factor the term needs for factoring the intermediate
+            #    with a prefactor of 1 refers to the reference remainder too
             prefactor *= factor
+            unit_factorization_pref *= factor
 
             # next, we can separate them according to the itmd_positions
             # so we can later build intermediate variants more efficient
